@@ -251,7 +251,13 @@ func textForms(bad func(string)) {
 // programs: the compilation of a fixed set of policies for each syscall table, as text. It does not depend on the machine the
 // process runs on (no lookup of the running architecture), so two builds of this command for different CPU targets must
 // print the same thing (C19: "a policy compiles to the same program wherever it is compiled for a given syscall table").
-func programs() map[string]string { return progset.Programs() }
+func programs() map[string]string {
+	out := progset.Programs()
+	for k, v := range progset.TextForms() {
+		out[k] = v
+	}
+	return out
+}
 
 func digest() string {
 	h := sha256.New()
